@@ -196,6 +196,8 @@ func runC21(c *engine.Ctx) {
 
 	// R4 task release
 	c21Release(c, r4, tqFns)
+	r5 := c.Rule("R5", "the task marked done is the very task that was popped (the queue matches active tasks by pointer)", 2)
+	checkTaskIdentity(c, r5)
 }
 
 // sliceHolds: the variadic slice value may contain v (appended).
